@@ -48,8 +48,9 @@ class C13(runner.Check):
   def gen(self, rng, idx, tier):
     depth = rng.choice(['direct'] * 5 + ['policy'] * 3 + ['service'] * 2)
     names = ['grid', 'sgrid', 'quasi', 'quasi', 'eagle', 'eagle', 'nsga2', 'nsga2']
-    if rng.random() < (0.04 if tier == 'quick' else 0.08):
+    if rng.random() < (0.05 if tier == 'quick' else 0.08):
       names = ['cmaes']
+      depth = rng.choice(['direct', 'policy'])
     if depth == 'service':
       names = ['grid', 'sgrid', 'sgrid', 'quasi', 'eagle']
     name = rng.choice(names)
@@ -307,7 +308,9 @@ class C13(runner.Check):
             if mutated:
               res.bump('probe.nsga2-left-sampling-phase')
           elif name == 'cmaes':
-            states.append(('cma', 'ran'))
+            # histories differ between the runs (the dump carries no RNG), but the generation counter and
+            # the number of pending members depend only on how many trials were incorporated
+            states.append(('cma',) + twin.cma_counters(d))
         outs.append((seq, states))
       res.sim_s += clk.elapsed
     (sa, xa), (sb, xb) = outs
